@@ -645,6 +645,65 @@ func (m *bsMachine) ruleCancelGet(t *rapid.T) {
 	m.settle()
 }
 
+// ruleRaceWake makes a value available AND cancels the blocked Get's context within one step (no quiescent
+// point in between, drawn order). Either outcome is allowed — the value, or the context's error — but a Get that
+// fails must not have consumed anything: the model adopts what was observed and the following reads verify it.
+func (m *bsMachine) ruleRaceWake(t *rapid.T) {
+	c := m.pickCons("raceCons", func(c *bsCons) bool {
+		return c.getOp != nil && c.getCancel != nil && !c.getCtxErr && c.open && c.pos() >= len(m.G) && c.pos() >= m.base
+	})
+	if c == nil || m.closed || m.cleaner == "fixed" || m.cleaner == "script" {
+		t.Skip("no blocked cancellable get")
+	}
+	for _, o := range m.cons {
+		if o != c && o.getOp != nil {
+			t.Skip("another get is pending")
+		}
+	}
+	k := rapid.IntRange(1, 3).Draw(t, "raceK")
+	cancelFirst := rapid.Bool().Draw(t, "cancelFirst")
+	yields := rapid.SampledFrom([]int{0, 0, 1, 5}).Draw(t, "raceYields")
+	vals := m.nextTokens(k)
+	args := make([]any, k)
+	for i, v := range vals {
+		args[i] = v
+	}
+	put := func() {
+		if err := m.b.Put(context.Background(), args...); err != nil {
+			m.fail("C01/put-error", "Put failed: %v", err)
+		}
+	}
+	if cancelFirst {
+		c.getCancel()
+		for i := 0; i < yields; i++ {
+			runtime.Gosched()
+		}
+		put()
+	} else {
+		put()
+		for i := 0; i < yields; i++ {
+			runtime.Gosched()
+		}
+		c.getCancel()
+	}
+	m.G = append(m.G, vals...)
+	m.changed()
+	m.wokeBlockedGet = true
+	synctest.Wait()
+	op := c.getOp
+	if !op.Finished() {
+		m.fail("C05/get-lost-wakeup", "Get(c%d) still blocked at quiescence although a value was put AND its context was cancelled", c.id)
+	}
+	if op.Panic != nil {
+		m.fail("C01+C02+C03+C05+C12/get-panic", "Get(c%d) panicked: %v", c.id, op.Panic)
+	}
+	r := op.Res.(bsGetRes)
+	m.tr("race(c%d,put%v,cancelFirst=%v)=%v", c.id, vals, cancelFirst, r.err == nil)
+	m.finishGet(c, m.G[c.pos()], r.err != nil)
+	m.simple = false
+	m.settle()
+}
+
 func (m *bsMachine) ruleCommit(t *rapid.T) {
 	c := m.pickCons("commitCons", func(c *bsCons) bool { return !c.busy() })
 	if c == nil {
@@ -1205,7 +1264,7 @@ func (m *bsMachine) ruleRange(t *rapid.T) {
 func bsWeights(prof string) map[string]int {
 	w := map[string]int{
 		"put": 5, "newConsumer": 2, "get": 7, "cancelGet": 2, "commit": 4, "rollback": 2,
-		"closeConsumer": 1, "closeBuffer": 1, "advance": 2, "setCleaner": 1, "range": 2,
+		"closeConsumer": 1, "closeBuffer": 1, "advance": 2, "setCleaner": 1, "range": 2, "raceWake": 1,
 	}
 	switch prof {
 	case "C02":
@@ -1215,7 +1274,7 @@ func bsWeights(prof string) map[string]int {
 	case "C04":
 		w["advance"], w["commit"], w["closeConsumer"] = 6, 6, 2
 	case "C05":
-		w["get"], w["cancelGet"], w["put"] = 9, 4, 4
+		w["get"], w["cancelGet"], w["put"], w["raceWake"] = 9, 4, 4, 4
 	case "C12":
 		w["closeConsumer"], w["closeBuffer"], w["newConsumer"] = 4, 2, 3
 	}
@@ -1267,6 +1326,7 @@ func bsRun(t *rapid.T, st *vkit.Stats, prof string) {
 	add("newConsumer", w["newConsumer"], m.ruleNewConsumer)
 	add("get", w["get"], m.ruleGet)
 	add("cancelGet", w["cancelGet"], m.ruleCancelGet)
+	add("raceWake", w["raceWake"], m.ruleRaceWake)
 	add("commit", w["commit"], m.ruleCommit)
 	add("rollback", w["rollback"], m.ruleRollback)
 	add("closeConsumer", w["closeConsumer"], m.ruleCloseConsumer)
